@@ -350,7 +350,7 @@ private:
 			}
 		}
 
-		using NextPrototypeInfo = FindPrototypeByCallableFromIndex<PrototypeInfo::index + 1, PrototypeList, F>;
+		using NextPrototypeInfo = FindPrototypeByCallableStartingAt<PrototypeInfo::index + 1, PrototypeList, F>;
 		if(doProcessIf<NextPrototypeInfo>(std::forward<F>(func))) {
 			return true;
 		}
